@@ -10,14 +10,19 @@
 #ifndef TRMAX
 #define TRMAX 6000
 #endif
-static unsigned char tr[2][TRMAX];
+static unsigned char tr[TRMAX];      /* decisions of run 0 */
 static unsigned cnt[2];
 static int cur = -1;
+static int mismatch;
 void ct_obs(const char *what)
 {
     if (cur >= 0) {
-        if (cnt[cur] < TRMAX) tr[cur][cnt[cur]] = (what[0] == 't');
-        ++cnt[cur];
+        unsigned char bit = (what[0] == 't');
+        unsigned i = cnt[cur]++;
+        if (i < TRMAX) {
+            if (cur == 0) tr[i] = bit;
+            else if (tr[i] != bit) mismatch = 1;      /* run 1 is compared with run 0 decision by decision */
+        }
     }
 }
 #ifndef __CPROVER__
@@ -111,7 +116,7 @@ VERIF_MAIN_BEGIN
     CHECK(cnt[0] < TRMAX, "trace buffer large enough (harness bound)");
     CHECK(cnt[0] == cnt[1], "same number of conditional branches whatever the secrets");
 #ifdef __CPROVER__
-    for (unsigned i = 0; i < TRMAX; ++i) CHECK(tr[0][i] == tr[1][i], "same branch decisions whatever the secrets");
+    CHECK(!mismatch, "same branch decisions whatever the secrets");
     CHECK(cnt[0] > 0, "instrumentation active (at least one branch observed)");
 #else
     CHECK(pch[0] == pch[1], "same basic-block trace whatever the secrets");
